@@ -15,7 +15,7 @@ from ..engine import emit, cfg as cfgmod, flow
 from ..engine import pattern as P
 from ..engine.facts import dotted, const, src, walk_func, enclosing_stmt, ancestors, str_value
 from . import skeletons as sk
-from .common import calls, stmt_nodes, contains, norm_successors
+from .common import calls, stmt_nodes, contains, norm_successors, pn
 
 
 @rule("C12.line-accounting", min_instances=6)
@@ -73,7 +73,7 @@ def line_accounting(ctx):
     ctx.check(ok, "block.write-per-line", db.where(fl), "_flush_adjusted_lines does not write exactly one line per buffered entry on every path", "exactly one write per buffered line")
     # block source lines recorded per line
     ss = [c for c in calls(wb, "self.start_source")]
-    ctx.check(bool(ss) and src(ss[0].args[0]).replace(" ", "") == "starting_lineno+i" and any(isinstance(a, ast.For) for a in ancestors(ss[0])), "block.source-per-line", db.where(wb), "code blocks do not record starting_lineno + i for every line", "start_source(starting_lineno + i) per block line")
+    ctx.check(bool(ss) and P.has(wb, "for ($i, $l) in enumerate($x):\n    ...\n    if %s is not None:\n        self.start_source(%s + $i)\n    ..." % (pn(wb, 2), pn(wb, 2))), "block.source-per-line", db.where(wb), "code blocks do not record starting_lineno + i for every line", "start_source(starting_lineno + i) per block line")
     ul = ms["_update_lineno"]
     ctx.check(any(isinstance(n, ast.AugAssign) and dotted(n.target) == "self.lineno" and isinstance(n.op, ast.Add) and src(n.value) == ul.args.args[1].arg for n in walk_func(ul)), "update.adds", db.where(ul), "_update_lineno does not add its argument to self.lineno", "lineno += num")
     st = ms["start_source"]
@@ -209,18 +209,21 @@ def metadata(ctx):
     ctx.require(rng, "full_line_map loop not found")
     r0 = rng[0]
     base = const(r0.args[0]) if len(r0.args) >= 2 else 0
-    ctx.check(len(r0.args) == 2 and src(r0.args[1]) == "max(line_map)", "reader.range", db.where(r0), "full_line_map covers %s" % src(r0), "module lines %s .. max(line_map)-1" % base)
+    ctx.check(len(r0.args) == 2 and P.has(rd, "$lm = $s['line_map']\n...\nfor $m in range($b, max($lm)):\n    ..."), "reader.range", db.where(r0), "full_line_map covers %s" % src(r0), "module lines %s .. max(line_map)-1" % base)
     carry = P.has(rd, "for $m in range($_, $_):\n    if $m in $lm:\n        $c = $lm[$m]\n    $f.append($c)")
     ctx.check(carry, "reader.carry-forward", db.where(rd), "lines without an entry do not carry the previous template line forward", "carry forward")
     readers = []
     for q in ("exceptions.RichTraceback._init", "template._translate_module_warnings._locate"):
         fn = db.func(q)
+        scope = [fn] + [a for a in ancestors(fn) if isinstance(a, ast.FunctionDef)]
+        full = {t_.id for sc_ in scope for s_ in ast.walk(sc_) if isinstance(s_, ast.Assign) and any(isinstance(x_, ast.Subscript) and const(x_.slice) == "full_line_map" for x_ in ast.walk(s_.value))
+                for t_ in s_.targets if isinstance(t_, ast.Name)}
         for n in walk_func(fn):
-            if isinstance(n, ast.Subscript) and isinstance(n.ctx, ast.Load) and src(n.value) == "line_map" and "lineno" in src(n.slice):
+            if isinstance(n, ast.Subscript) and isinstance(n.ctx, ast.Load) and isinstance(n.value, ast.Name) and n.value.id in full and not isinstance(n.slice, ast.Constant):
                 readers.append((q, n))
     ctx.require(len(readers) >= 2, "full_line_map readers not found (%d)" % len(readers))
     for q, n in readers:
-        ok = isinstance(n.slice, ast.BinOp) and isinstance(n.slice.op, ast.Sub) and src(n.slice.left) == "lineno" and const(n.slice.right) == base
+        ok = isinstance(n.slice, ast.BinOp) and isinstance(n.slice.op, ast.Sub) and isinstance(n.slice.left, ast.Name) and const(n.slice.right) == base
         ctx.check(ok, "reader.index:" + q, db.where(n), "%s indexes full_line_map with `%s` but the list starts at module line %s: every frame is mapped to a neighbouring line" % (q, src(n.slice), base), "index lineno - %s" % base)
     for q in ("exceptions.RichTraceback._init", "template._translate_module_warnings._locate"):
         fn = db.func(q)
